@@ -1041,6 +1041,11 @@ class Interp:
         o = self.obj(st, base)
         if o is not None:
             if key is not _NOKEY and key in o.slots:
+                h = getattr(self.d, "on_key_load", None)
+                if h is not None and o.kind == "dict":
+                    nv = h(self, base, key, o.slots[key], st)
+                    if nv is not None:
+                        return nv
                 return o.slots[key]
             if isinstance(key, int) and key < 0 and o.kind in ("list", "tuple") and not o.elem:
                 n = len([k for k in o.slots if isinstance(k, int)])
